@@ -267,6 +267,31 @@ pub fn scenarios(ctx: &Ctx, rng: &mut Rng) -> Vec<Scenario> {
                     }),
                 });
             }
+            // ---- readers: open through a stream that returns short reads (a directory arrives in several transfers; faults hit
+            // the tail transfers, e.g. those that carry only a codec's epilogue)
+            for asyncm in [false, true] {
+                let b = bytes.clone();
+                let chunk = if lname == "small" { 3usize } else { 1000 };
+                v.push(Scenario {
+                    name: format!("PMTiles::{}/{cn}/{lname}/short-reads", if asyncm { "from_async_reader" } else { "from_reader" }),
+                    writer: false,
+                    run: Box::new(move |k| {
+                        if asyncm {
+                            let mut s = AInst::new(b.as_ref().clone());
+                            aset(&mut s, k, false);
+                            s.c.rsched = crate::io::Sched::Fixed(chunk);
+                            let r = guard(|| block_on(PMTiles::from_async_reader(&mut s)).map(|pm| pm_fp(&pm)));
+                            finish_async(r, |v| *v, &s, false)
+                        } else {
+                            let mut s = Inst::new(b.as_ref().clone());
+                            s.c.fail_from = k;
+                            s.c.rsched = crate::io::Sched::Fixed(chunk);
+                            let r = guard(|| PMTiles::from_reader(&mut s).map(|pm| pm_fp(&pm)));
+                            finish_sync(r, |v| *v, &s, false)
+                        }
+                    }),
+                });
+            }
             // ---- lookups on an archive opened fault-free (faults start after the open)
             for asyncm in [false, true] {
                 let b = bytes.clone();
@@ -570,6 +595,24 @@ pub fn scenarios(ctx: &Ctx, rng: &mut Rng) -> Vec<Scenario> {
                 }
             }),
         });
+        if asyncm {
+            // the async header writer flushes before it returns: behind a buffering writer a failing stream must surface as Err
+            let h3 = hdr.clone();
+            v.push(Scenario {
+                name: String::from("Header::to_async_writer/buffered"),
+                writer: true,
+                run: Box::new(move |k| {
+                    let h = Header::from_bytes(h3.as_ref()).expect("header");
+                    let mut s = AInst::new(Vec::new());
+                    aset(&mut s, k, false);
+                    let r = {
+                        let mut bw = futures::io::BufWriter::with_capacity(64, &mut s);
+                        guard(|| block_on(h.to_async_writer(&mut bw)))
+                    };
+                    finish_async(r, |()| 1, &s, true)
+                }),
+            });
+        }
         let hb = hdr.clone();
         v.push(Scenario {
             name: format!("Header::{}", if asyncm { "from_async_reader" } else { "from_reader" }),
